@@ -14,7 +14,7 @@ The model follows mutable.go **after** the `fix:` patches `fixes/C12-*.patch`, `
   ids.  Everything S2 decides (loop validity, orientation) is the `Oracle` parameter.
 
 Outside the model: S2 cell-covering tokens and the `all` token of `TokensForFeature` (only tag tokens
-are modelled), relations / collections / expression features, literal lat-lngs inside paths, areas given
+are modelled), expression features, relation roles and collection values, literal lat-lngs inside paths, areas given
 by polygons, `Traverse`, `FindAreasByPoint`, goroutines of `EachFeature`, the `epoch` iterator guard.
 Feature ids are natural numbers whose order is `FeatureID.Less` (the harness encodes type·1000+value).
 -/
@@ -80,6 +80,10 @@ inductive Geom where
   | point (p : Pt)
   | path (pts : List Id)
   | area (paths : List Id)
+  /-- a `RelationFeature`: its members -/
+  | relation (members : List Id)
+  /-- a `CollectionFeature`: its keys that are feature ids (what `References()` returns) -/
+  | collection (keys : List Id)
 deriving DecidableEq, Repr
 
 /-- an `ingest.Feature` (GenericFeature / AreaFeature): id, tags without the geometry tags, skeleton -/
@@ -97,6 +101,8 @@ def geomRefs : Geom → List Id
   | .point _ => []
   | .path ps => ps
   | .area ps => ps
+  | .relation ms => ms
+  | .collection ks => ks
 
 /-! ## `ModifiedTags` -/
 
@@ -163,7 +169,7 @@ structure View where
 def resolve (loc : Id → Option Pt) : Geom → Option (List Pt)
   | .point p => some [p]
   | .path ps => ps.mapM loc
-  | .area _ => some []
+  | _ => some []
 
 /-! ## Index and reference tables -/
 
@@ -205,20 +211,24 @@ def refsAdd (rs : List (Id × List Id)) (f : Feature) : List (Id × List Id) :=
   (geomRefs f.geom).foldl (fun rs tgt =>
     if (sources rs tgt).contains f.id then rs else AMap.set rs tgt (sources rs tgt ++ [f.id])) rs
 
+/-- one target of `FeatureReferencesByID.RemoveFeature` -/
+def refsRemoveStep (fid : Id) (rs : List (Id × List Id)) (tgt : Id) : List (Id × List Id) :=
+  match AMap.get rs tgt with
+  | some l => AMap.set rs tgt (l.filter (fun y => decide (y ≠ fid)))
+  | none => rs
+
 /-- `FeatureReferencesByID.RemoveFeature` -/
 def refsRemove (rs : List (Id × List Id)) (f : Feature) : List (Id × List Id) :=
-  (geomRefs f.geom).foldl (fun rs tgt =>
-    match AMap.get rs tgt with
-    | some l => AMap.set rs tgt (l.filter (fun y => decide (y ≠ f.id)))
-    | none => rs) rs
+  (geomRefs f.geom).foldl (refsRemoveStep f.id) rs
 
-/-- `FeatureReferencesByID.FindReferences`: sources, their sources, … (`fuel` levels; points ← paths ←
-areas need 2) -/
+/-- `FeatureReferencesByID.FindReferences`: sources, their sources, … (`fuel` levels) -/
 def closure (rs : List (Id × List Id)) : Nat → Id → List Id
   | 0, _ => []
   | n + 1, id => sources rs id ++ (sources rs id).flatMap (closure rs n)
 
-def refDepth : Nat := 4
+/-- enough levels for every chain of references the table can hold (relations may contain relations;
+the visited-set search of the code — `fixes/C15-find-references-visited.patch` — ends on cycles too) -/
+def refDepth (rs : List (Id × List Id)) : Nat := rs.length + 1
 
 /-! ## One `MutableOverlayWorld` object -/
 
@@ -276,7 +286,7 @@ def dedup : List Id → List Id
 skipped, their current references are in `l.refs`) -/
 def Layer.refsOf (b : View) (l : Layer) (id : Id) : List Id :=
   let br := (b.refs id).filter (fun r => !AMap.contains l.feats r)
-  let all := br ++ br.flatMap (closure l.refs refDepth) ++ closure l.refs refDepth id
+  let all := br ++ br.flatMap (closure l.refs (refDepth l.refs)) ++ closure l.refs (refDepth l.refs) id
   (dedup all).filter (fun r => (l.find b r).isSome)
 
 def Layer.ids (b : View) (l : Layer) : List Id :=
@@ -336,6 +346,8 @@ def validate (v : View) (o : Oracle) (f : Feature) : Bool :=
   | .point _ => true
   | .path ps => validatePath v o ps
   | .area ps => validateArea v ps
+  | .relation _ => true
+  | .collection _ => true
 
 /-! ## Mutations -/
 
@@ -433,6 +445,17 @@ def Layer.checkReferrers (b : View) (o : Oracle) (l : Layer) (f : Feature) (refe
   let bad := referrers.any (fun r => !validate (tmp.view b (tmp.loc b)) o r.f)
   (tmp.restore f.id (AMap.get l.feats f.id), bad)
 
+/-- `references.RemoveFeature` / `references.AddFeature` of a referrer that already lives in the overlay -/
+def removeReferrer (l : Layer) (rs : List (Id × List Id)) (r : FV) : List (Id × List Id) :=
+  match AMap.get l.feats r.f.id with
+  | some e => refsRemove rs e
+  | none => rs
+
+def addReferrer (l : Layer) (rs : List (Id × List Id)) (r : FV) : List (Id × List Id) :=
+  match AMap.get l.feats r.f.id with
+  | some e => refsAdd rs e
+  | none => rs
+
 /-- the tokens `NewModifiedFeaturesWithCopies` records for the feature being replaced -/
 def existingTokens (l : Layer) (id : Id) : List Token :=
   match AMap.get l.feats id with
@@ -443,20 +466,18 @@ def existingTokens (l : Layer) (id : Id) : List Token :=
 def Layer.commit (l : Layer) (f : Feature) (referrers : List FV) : Layer :=
   let existing := AMap.get l.feats f.id
   let tokens0 := existingTokens l f.id
-  let inOverlay := referrers.filter (fun r => AMap.contains l.feats r.f.id)
+  -- (a feature that is its own referrer — a reference cycle — is the existing object itself: it is
+  -- merged with `f`, so its references are removed and re-added below as `existing` / `f`)
+  let inOverlay := referrers.filter (fun r => AMap.contains l.feats r.f.id && r.f.id != f.id)
   let lc := copyReferrers f.id l referrers
   -- Update: RemoveReferences
   let rs := match existing with
     | some e => refsRemove lc.1.refs e
     | none => lc.1.refs
-  let rs := inOverlay.foldl (fun rs r => match AMap.get l.feats r.f.id with
-    | some e => refsRemove rs e
-    | none => rs) rs
+  let rs := inOverlay.foldl (removeReferrer l) rs
   -- AddReferences
   let rs := refsAdd rs f
-  let rs := inOverlay.foldl (fun rs r => match AMap.get l.feats r.f.id with
-    | some e => refsAdd rs e
-    | none => rs) rs
+  let rs := inOverlay.foldl (addReferrer l) rs
   let rs := lc.2.foldl refsAdd rs
   -- UpdateIndex (tag tokens of referrers already in the overlay do not change)
   let ix := reindex lc.1.index f.id tokens0 (tokensFor f)
@@ -698,7 +719,7 @@ def rootView (fs : List Feature) : View :=
   let rs := rootRefs fs
   { find := rootFind feats, hitFV := rootFind feats, loc := rootLoc feats,
     search := fun t => (AMap.keys feats).foldl (rootSearchStep feats t) [],
-    refs := fun id => (dedup (closure rs refDepth id)).filter (fun r => AMap.contains feats r),
+    refs := fun id => (dedup (closure rs (refDepth rs) id)).filter (fun r => AMap.contains feats r),
     ids := AMap.keys feats }
 
 end B6.Model.Mutable
